@@ -3,15 +3,19 @@
 record what was run (verification log) and which check catches it (runs the property's quick check on a scratch copy)."""
 import json, os, re, shutil, subprocess, sys, tempfile
 VERIF = os.path.dirname(os.path.dirname(os.path.abspath(__file__)))
+SRC = os.environ.get("SEED_SRC", "/tmp/seed_out")
+LOGS = os.environ.get("SEED_LOGS", "/tmp/vlogs")
+RENAME = dict(kv.split("=") for kv in os.environ.get("SEED_RENAME", "").split(",") if kv)
 for s in sys.argv[1:]:
-    pid, x = s.split("/")
-    src = f"/tmp/seed_out/{s}"
+    pid, x0 = s.split("/")
+    src = f"{SRC}/{s}"
+    x = RENAME.get(x0, x0)
     dst = os.path.join(VERIF, "seeded", f"{pid}-{x}")
     os.makedirs(dst, exist_ok=True)
     shutil.copy(f"{src}/patch.diff", dst)
     shutil.copy(f"{src}/demo.py", dst)
     meta = json.load(open(f"{src}/meta.json"))
-    log = open(f"/tmp/vlogs/{pid}_{x}.log").read()
+    log = open(f"{LOGS}/{pid}_{x0}.log").read()
     ver = {k: v for k, v in re.findall(r"^(\w+)=(.*)$", log, flags=re.M)}
     suite = re.findall(r"suite: (.*(?:passed|failed).*)$", log, flags=re.M)
     d = tempfile.mkdtemp(prefix="/tmp/mut")
